@@ -184,7 +184,18 @@ let () =
                 (match c.r with
                  | None -> ()
                  | Some r ->
-                     (match fstep r l with
+                     let stepped = match fstep r l with
+                       | Some r' -> Some r'
+                       | None ->
+                           (match l with
+                            | HPBegin _ ->
+                                c.mism <- c.mism + 1;
+                                Printf.printf "MISMATCH case=%d seed=%s step=%d label=%s kinds=model:not-enabled\n  the model does not accept the observed persist choice; it continues with its own\n"
+                                  c.id c.seed c.steps (Sexp.to_string lsx);
+                                List.fold_left (fun acc ch -> match acc with Some _ -> acc | None -> fstep r (HPBegin ch))
+                                  None [PAppend; PCompact O; PNoop]
+                            | _ -> None) in
+                     (match stepped with
                       | None ->
                           c.mism <- c.mism + 1; c.r <- None;
                           Printf.printf "MISMATCH case=%d seed=%s step=%d label=%s kinds=model:not-enabled\n"
